@@ -25,6 +25,9 @@ EVENTS = {
     # a third model with a 25 000 ft ceiling (must be rejected there)
     'toXMD': ('BOS', 'XMD', '2019-01-01T12:00:00', None, 'ok'),
     'toXMD@pm3': ('BOS', 'XMD', '2019-01-01T12:00:00', None, 'ValueError'),
+    # the same 25 000 ft variant DERIVED from the shipped model object at the time of the flight
+    # (`model_copy(update=...)`), i.e. possibly after the parent model has already been flown
+    'toXMD@pm3c': ('BOS', 'XMD', '2019-01-01T12:00:00', None, 'ValueError'),
     'unknown_airport': ('BOS', 'ZZZ', '2019-01-01T12:00:00', None, 'ValueError:unknown airport'),
     'unknown_origin': ('QQQ', 'LAX', '2019-01-01T12:00:00', None, 'ValueError:unknown airport'),
     'high_airport': ('BOS', 'XHI', '2019-01-01T12:00:00', None, 'ValueError'),
@@ -41,7 +44,7 @@ EVENTS = {
 ALPHABETS = {
     'plain': ['okA', 'okA_rev', 'okB', 'okA@pm2', 'okA_mass', 'toXMD', 'toXMD@pm3', 'unknown_airport', 'unknown_origin', 'high_airport', 'mass_out_of_envelope'],
     'plain-small': ['okA', 'okB', 'okB@pm2', 'okA_mass', 'unknown_airport', 'high_airport'],
-    'two-models': ['toXMD', 'toXMD@pm3', 'okA', 'okA@pm2', 'okA_rev'],
+    'two-models': ['toXMD', 'toXMD@pm3', 'toXMD@pm3c', 'okA', 'okA@pm2', 'okA_rev'],
     'iter-lhv': ['okC', 'okB', 'okB@pm2', 'unknown_airport'],
     'weather': ['wx_ok', 'wx_missing_file', 'wx_outside_domain', 'unknown_airport', 'wx_high_airport', 'wx_mass_out_of_envelope'],
     'weather-reject': ['wx_ok', 'wx_unknown_airport', 'wx_high_airport', 'wx_mass_out_of_envelope', 'unknown_airport'],
@@ -131,7 +134,10 @@ def _digest(traj):
 
 def _fly(builder, ev):
     m, mass = _mission(ev)
-    pm = _W['pm2'] if ev.endswith('@pm2') else _W['pm3'] if ev.endswith('@pm3') else _W['pm']
+    if ev.endswith('@pm3c'):
+        pm = _W['pm'].model_copy(update={'maximum_altitude_ft': 25000})
+    else:
+        pm = _W['pm2'] if ev.endswith('@pm2') else _W['pm3'] if ev.endswith('@pm3') else _W['pm']
     try:
         if mass is None:
             t = builder.fly(pm, m)
